@@ -19,6 +19,7 @@ import (
 	"encoding/base64"
 	"fmt"
 	"maps"
+	"slices"
 	"strings"
 	"sync"
 
@@ -75,6 +76,20 @@ func ToCatalog(rows []any, ident string, identRight string, joinExpr sqlparser.E
 	if err != nil {
 		return nil, err
 	}
+	// the columns of this side that ON names anywhere else - inside BETWEEN,
+	// NOT, IS, a function call - are part of the key as well: the condition
+	// is evaluated once per key group, on the group's key columns
+	_ = sqlparser.Walk(func(node sqlparser.SQLNode) (bool, error) {
+		if _, nested := node.(*sqlparser.Subquery); nested {
+			return false, nil
+		}
+		if column, ok := node.(*sqlparser.ColName); ok {
+			if own, _, name, err := extractColumnsFromExpr(ident, column); err == nil && own && !slices.Contains(columns, name) {
+				columns = append(columns, name)
+			}
+		}
+		return true, nil
+	}, joinExpr)
 	mappedColumns := make(map[string]string)
 	for _, column := range columns {
 		mappedColumns[column] = strings.ReplaceAll(column, "'", "")
